@@ -36,6 +36,7 @@ type Style struct {
 	MixedAnn         int    // >0: annotations alternate between the inline and the multi-line form (1: first inline, 2: first multi-line)
 	AutoItemNotes    bool   // enum items inside multi-line annotations get an inline note each (whatever the model says)
 	EmptyAnn         int    // >0: every EmptyAnn-th value without rules and note gets an empty "//" annotation
+	JoinLines        bool   // several properties on one line and one-line containers where no annotation is involved (ignored when comments or empty annotations are on)
 	NoteNextLine     bool   // note-only annotations of values that no comma follows go to the next line (every other one)
 	BlankLines       bool   // blank lines between properties
 	SpaceBeforeColon bool
@@ -272,6 +273,11 @@ func (p *printer) node(n *ref.SNode, level int, comma bool) {
 	if comma {
 		c = ","
 	}
+	if p.joining() && p.compact(n) {
+		p.inline(n)
+		p.w(c)
+		return
+	}
 	switch n.Kind {
 	case ref.SLit:
 		p.w(n.Tok)
@@ -306,11 +312,17 @@ func (p *printer) node(n *ref.SNode, level int, comma bool) {
 		}
 		p.annotation(n, level)
 		p.eolComment()
-		p.w(p.st.NL)
 		for i := range n.Props {
 			pr := &n.Props[i]
-			p.leadingComments(level + 1)
-			p.indent(level + 1)
+			if i > 0 && p.joining() && p.oneLine(n.Props[i-1].Val) && p.firstLineFree(pr.Val) {
+				// several properties on one line: allowed as long as at most one value of the line
+				// could take an annotation
+				p.w(" ")
+			} else {
+				p.w(p.st.NL)
+				p.leadingComments(level + 1)
+				p.indent(level + 1)
+			}
 			pr.KeyBegin = len(p.b)
 			p.w(pr.KeyTok)
 			pr.KeyEnd = len(p.b) - 1
@@ -319,8 +331,8 @@ func (p *printer) node(n *ref.SNode, level int, comma bool) {
 			}
 			p.w(": ")
 			p.node(pr.Val, level+1, i < len(n.Props)-1)
-			p.w(p.st.NL)
 		}
+		p.w(p.st.NL)
 		p.leadingComments(level)
 		p.indent(level)
 		n.End = len(p.b)
@@ -351,6 +363,99 @@ func (p *printer) node(n *ref.SNode, level int, comma bool) {
 		p.w("]")
 		p.w(c)
 	}
+}
+
+// joining: the JoinLines style is on and nothing else writes to the ends of lines.
+func (p *printer) joining() bool {
+	return p.st.JoinLines && p.st.Comments == 0 && p.st.EmptyAnn == 0
+}
+
+func bareScalar(n *ref.SNode) bool {
+	return (n.Kind == ref.SLit || n.Kind == ref.SRef) && len(n.Rules) == 0 && n.Note == ""
+}
+
+// compact: a non-empty container without annotation whose children are all bare scalars; it is
+// written on one line.
+func (p *printer) compact(n *ref.SNode) bool {
+	if len(n.Rules) > 0 || n.Note != "" {
+		return false
+	}
+	switch n.Kind {
+	case ref.SArr:
+		if len(n.Items) == 0 {
+			return false
+		}
+		for _, it := range n.Items {
+			if !bareScalar(it) {
+				return false
+			}
+		}
+		return true
+	case ref.SObj:
+		if len(n.Props) == 0 {
+			return false
+		}
+		for i := range n.Props {
+			if !bareScalar(n.Props[i].Val) {
+				return false
+			}
+		}
+		return true
+	}
+	return false
+}
+
+// oneLine: the value is written on one line and carries no annotation.
+func (p *printer) oneLine(n *ref.SNode) bool {
+	if len(n.Rules) > 0 || n.Note != "" {
+		return false
+	}
+	return bareScalar(n) || p.compact(n) || (n.Kind == ref.SArr && len(n.Items) == 0) || (n.Kind == ref.SObj && len(n.Props) == 0)
+}
+
+// firstLineFree: the first line of the value carries no annotation.
+func (p *printer) firstLineFree(n *ref.SNode) bool {
+	return len(n.Rules) == 0 && n.Note == ""
+}
+
+func (p *printer) inline(n *ref.SNode) {
+	leaf := func(v *ref.SNode) {
+		v.Begin = len(p.b)
+		v.AnnBegin = -1
+		if v.Kind == ref.SRef {
+			p.w(strings.Join(v.Names, " | "))
+		} else {
+			p.w(v.Tok)
+		}
+		v.End = len(p.b) - 1
+	}
+	n.AnnBegin = -1
+	if n.Kind == ref.SArr {
+		p.w("[")
+		for i, it := range n.Items {
+			if i > 0 {
+				p.w(", ")
+			}
+			leaf(it)
+		}
+		n.End = len(p.b)
+		p.w("]")
+		return
+	}
+	p.w("{")
+	for i := range n.Props {
+		if i > 0 {
+			p.w(", ")
+		}
+		pr := &n.Props[i]
+		pr.KeyBegin = len(p.b)
+		p.w(pr.KeyTok)
+		pr.KeyEnd = len(p.b) - 1
+		p.w(": ")
+		leaf(pr.Val)
+	}
+	n.End = len(p.b)
+	p.w("}")
 }
 
 // ExampleJSON renders the example of a plain-JSON model as compact JSON (original literal
